@@ -75,8 +75,14 @@ def run(pid, tier):
         pick = cases[:: max(1, len(cases) // ncases)][:ncases]
         import tablemc
         pick += [c for c in tablemc.shape_cases("C11", "quick", sc, seed) if len(c["refs"]) <= 130][: (4 if tier == "quick" else 20)]
-        for c in pick:
-            c["refs"] = [r for r in c["refs"]]
+        # one table with a large block size: room for a deflate stream that inflates to far more than the block declares
+        bigblk = CT.gen_case(random.Random(seed + 7), "fbig", "C01")
+        bigblk["blocksize"], bigblk["unaligned"] = 1 << 20, False
+        if not bigblk["logs"]:
+            hs = 40 if bigblk["hash"] == "sha1" else 64
+            bigblk["logs"] = [{"n": "refs/heads/biglog", "i": bigblk["min"], "del": False, "old": "", "new": "ab" * (hs // 2), "user": "u", "email": "e",
+                               "time": 1, "tz": 0, "msg": "m"}]
+        pick.append(bigblk)
         wd = os.path.join(sc, "faults")
         os.makedirs(wd)
         with open(os.path.join(wd, "cases.json"), "w") as f:
